@@ -248,3 +248,41 @@ def pair_accessor(ctx, fx, fid, rule="R-PAIRACCESS"):
                       % fid.rsplit("::", 1)[-1], fn.file, fn.line)
     ctx.instance(rule + ".accessors", 1)
     return 1
+
+
+# ------------------------------------------------------------------ R-NARROWIDX
+def index_param_narrowed(ctx, fx, files, rule="R-NARROWIDX", only=None):
+    """a position handed in as `usize` (index, length, count) is compared at full width before it is cut to a narrower
+    integer: in the container files every narrowing cast of (a copy of) a `usize` parameter is dominated by a comparison
+    on the wide value. `self[index as u32]` with the bound checked on the u32 lets index = 2^32 + k alias element k."""
+    n = 0
+    for f in files:
+        for fid in fx.fn_ids(f):
+            if "::tests::" in fid or "{closure" in fid or (only and not only(fid)):
+                continue
+            fn = Fn(fx.raw(fid))
+            params = {i for i in range(1, fn.nargs + 1) if fn.ty(i) == "usize"}
+            if not params:
+                continue
+            for loc, st in fn.iter_locs():
+                if not (st[0] == "a" and st[2][0] == "cast" and st[2][1] == "IntToInt" and len(st[1]) == 1):
+                    continue
+                src = op_local(st[2][2])
+                if src is None or W.get(fn.ty(st[1][0]), 99) >= W.get(fn.ty(src), 0):
+                    continue
+                S = same_value(fn, src)
+                if not (S & params):
+                    continue
+                n += 1
+                ctx.analysed_fns.add(fid)
+                ok = any(fn.dominates(b, loc[0]) and b != loc[0] for b, _ in cmp_switches(fn, S)) or _bounded(fn, src, loc[0])
+                ctx.obligation(rule, fid, "usize parameter checked before `as %s`" % fn.ty(st[1][0]), ok,
+                               sample={"fn": fid, "line": st[3], "param": fn.local_name(sorted(S & params)[0])})
+                if not ok:
+                    ctx.violation(rule, fid, "usize parameter narrowed unchecked",
+                                  "%s cuts its usize parameter %s to %s (line %d) before any comparison on the full value: positions "
+                                  "that differ by a multiple of 2^%d are treated as the same element"
+                                  % (fid.rsplit("::", 1)[-1], fn.local_name(sorted(S & params)[0]), fn.ty(st[1][0]), st[3], W[fn.ty(st[1][0])]),
+                                  fn.file, st[3])
+    ctx.instance(rule + ".casts", n)
+    return n
